@@ -120,9 +120,23 @@ def _simplify_probe(m, r):
              lambda x, y: sympy.Abs(x * y), lambda x, y: (x**2) ** sympy.Rational(1, 2) + sympy.Abs(y),
              lambda x, y: sympy.Abs(x) / (1 + sympy.Abs(y)), lambda x, y: sympy.sqrt((x - y) ** 2)]
     extra_a, extra_b = [], []
-    for k in range(r.randint(2, 4)):
-        x = sympy.Symbol(r.choice(thetas))
-        y = sympy.Symbol(r.choice(thetas))
+    # every sign class of bounds that simplify_expression distinguishes (negative, non-positive, positive, non-negative,
+    # unrestricted) is met through EXTRA thetas that no other statement of the model uses (so the evaluation of the model
+    # itself is not disturbed by negative values); the second operand is an extra or an original theta
+    from pharmpy.model import Parameter, Parameters
+
+    inf = float("inf")
+    classes = [(1.5, -inf, inf), (2.0, -3.0, inf), (0.7, 0.0, inf), (1.2, 0.3, 9.0), (-1.5, -inf, 0.0), (-2.0, -16.0, -0.5),
+               (-0.8, -inf, 2.5), (-1.1, -inf, inf), (0.9, -inf, 0.0 + 4.0), (3.0, 0.0, 12.0)]
+    extra = []
+    for j, (init, lo, hi) in enumerate(r.sample(classes, r.randint(2, 4))):
+        extra.append(Parameter.create(f"SPTH{j}", init, lower=lo, upper=hi))
+    m = m.replace(parameters=Parameters.create(list(m.parameters) + extra))
+    xs = [q.name for q in extra]
+    picks = [(r.choice(xs), r.choice(xs + thetas)) for _ in range(r.randint(2, 4))]
+    for k, (xn, yn) in enumerate(picks):
+        x = sympy.Symbol(xn)
+        y = sympy.Symbol(yn)
         e = r.choice(forms)(x, y)
         sym = sympy.Symbol(f"SPROBE{k}")
         extra_a.append(Assignment.create(sym, e))
